@@ -1,18 +1,21 @@
 import Prom.Drv.Hist
 import Prom.Drv.Desc
 import Prom.Drv.Vec
+import Prom.Drv.Reg
 /- Line-protocol driver: one request per line on stdin, one result per line on stdout. -/
 open Prom Prom.Drv
 
 structure DState where
   dummy : Nat := 0
   vec : VecSt := {}
+  reg : RegSt := {}
 
 def step (st : DState) (line : String) : DState × String :=
   match line.trimAscii.toString.splitOn " " with
   | ["case"] => ({}, "case")
   | "hist" :: args => (st, histHandle args)
   | "desc" :: args => (st, descHandle args)
+  | "reg" :: args => let (v, o) := regHandle st.reg args; ({ st with reg := v }, o)
   | "vec" :: args => let (v, o) := vecHandle st.vec args; ({ st with vec := v }, o)
   | _ => (st, "bad-op")
 
